@@ -3219,6 +3219,21 @@ func ruleC04_10(c *Ctx, r *Rep) {
 		}
 		for _, b := range f.Blocks {
 			for _, in := range b.Instrs {
+				// a seconds count converted to time.Duration is scaled afterwards (a bare conversion reads it as
+				// nanoseconds)
+				if cv, isCv := in.(*ssa.Convert); isCv && cv.Type().String() == "time.Duration" && cv.Referrers() != nil {
+					if nm := secondsField(cv.X); nm != "" {
+						scaled := len(*cv.Referrers()) > 0
+						for _, u := range *cv.Referrers() {
+							if m, isM := u.(*ssa.BinOp); !isM || m.Op != token.MUL {
+								scaled = false
+							}
+						}
+						n++
+						r.Check("C04.10", fmt.Sprintf("C04.10:seconds-scaled:%s@%s", nm, c.Key(top(f))), cv.Pos(), scaled, "",
+							fmt.Sprintf("the field %s (a count of seconds) is converted to time.Duration and used without being multiplied by time.Second: the value is read as nanoseconds", nm))
+					}
+				}
 				bo, ok := in.(*ssa.BinOp)
 				if !ok || bo.Op != token.MUL {
 					continue
@@ -3237,7 +3252,7 @@ func ruleC04_10(c *Ctx, r *Rep) {
 			}
 		}
 	}
-	r.Floor("C04.10", n, 2)
+	r.Floor("C04.10", n, 1)
 }
 
 // ---------------------------------------------------------------------------
